@@ -47,6 +47,18 @@ out.append("| seed | change | needs | caught by |\n|---|---|---|---|")
 for f in sorted(glob.glob(ROOT + '/seeded/*/meta.json')):
     m = json.load(open(f))
     out.append(f"| {m['property']} | {short(m['change'],200)} | {short(m['needs_to_manifest'],200)} | {short(m['detected_by'],260)} |")
+import sys
+sys.path.insert(0, ROOT + '/lib')
+from registry import CHECKS
+out.append("\n### 0.3 As built: where each property is decided\n")
+out.append("| property | package(s) / test regex | overlay | shards q/t | deciding method |\n|---|---|---|---|---|")
+for pid in sorted(CHECKS):
+    c = CHECKS[pid]
+    units = c.get('units') or [c]
+    where = '; '.join(f"harness/{u['pkg']} `{u['run']}`" for u in units)
+    ov = ', '.join(sorted({u.get('overlay') or ('race build' if u.get('race') else '-') for u in units}))
+    sh = '; '.join(f"{u.get('shards',{}).get('quick',1)}/{u.get('shards',{}).get('thorough',1)}" for u in units)
+    out.append(f"| {pid} | {where} | {ov} | {sh} | {short(c['technique'], 300)} |")
 p = ROOT + '/DESIGN.md'
 s = open(p).read()
 B, E = '<!-- BEGIN GENERATED -->', '<!-- END GENERATED -->'
